@@ -537,6 +537,8 @@ class SgzReader(object):
         if min_sample_idx is None or max_sample_idx is None:
             cd = np.zeros((cd_len, self.n_samples))
         else:
+            if not 0 <= min_sample_idx < max_sample_idx <= self.n_samples:
+                raise IndexError(self.range_error.format((min_sample_idx, max_sample_idx), 0, self.n_samples))
             cd = np.zeros((cd_len, max_sample_idx - min_sample_idx))
 
         if cd_id >= 0:
@@ -601,6 +603,8 @@ class SgzReader(object):
         if min_sample_idx is None or max_sample_idx is None:
             ad = np.zeros((ad_len, self.n_samples))
         else:
+            if not 0 <= min_sample_idx < max_sample_idx <= self.n_samples:
+                raise IndexError(self.range_error.format((min_sample_idx, max_sample_idx), 0, self.n_samples))
             ad = np.zeros((ad_len, max_sample_idx - min_sample_idx))
 
         if ad_id < self.n_xlines:
@@ -794,6 +798,8 @@ class SgzReader(object):
             A single trace, decompressed
         """
         if self.is_2d:
+            if not 0 <= index < self.tracecount:
+                raise IndexError(self.range_error.format(index, 0, self.tracecount - 1))
             min_trace = self.blockshape[1] * (index // self.blockshape[1])
 
             if self.blockshape[1] == 4:
@@ -820,6 +826,8 @@ class SgzReader(object):
             min_xl = self.blockshape[1] * (xl // self.blockshape[1])
             min_sample_id = 0 if min_sample_id is None else min_sample_id
             max_sample_id = self.n_samples if max_sample_id is None else max_sample_id
+            if not 0 <= min_sample_id < max_sample_id <= self.n_samples:
+                raise IndexError(self.range_error.format((min_sample_id, max_sample_id), 0, self.n_samples))
 
             min_z = self.blockshape[2] * (min_sample_id // self.blockshape[2])
             max_z = self.blockshape[2] * ((max_sample_id + self.blockshape[2] - 1) // self.blockshape[2])
